@@ -87,6 +87,9 @@ fn run_case(c: &Case) -> CaseResult {
             want.push((p as i32, e));
         }
         vensure!(f == want, "factorize", "limit {}: factorize({}) = {:?}, expected {:?}", n, k, f, want);
+        if !c.big && k % 7 == 0 && n % 50 == 0 {
+            vcore::adaptors_agree(&format!("limit {} factorize({})", n, k), &want, k, || s.factorize(k as i32))?;
+        }
         if k >= 4 && lpf[k] != k as u32 && (lpf[k] as usize * lpf[k] as usize) > n / 2 {
             composite_with_big_lpf = true;
         }
